@@ -126,6 +126,17 @@ CHECKS = {
               "the call read another call's different value, otherwise a violation."),
         note=TB_COMMON + "Granularity = blocks between the five hook points (guard SZ_VERIF): races inside a block are only explored by free-running cases. Which reads the reconstruction depends on is validated by the differential, not derived from the C source.",
         technique="Coq proof (schedule-independence under agreement, invariant over arbitrary schedules; refutation witness) + deterministic schedule replay through guarded yield hooks + differential against the call made alone"),
+    "C10": dict(
+        category="proof", design_ref="DESIGN.md §4 C10",
+        text=("The leak-freedom half is a theorem about the allocation ledger of the API (which blocks the library owns between calls): for every "
+              "history of initialise / compress / decompress / metadata / caller-free / finalise operations the library owns at most its three "
+              "parameter blocks (no per-call growth), and once the caller has freed what it was given and finalised nothing is live -- proved by "
+              "induction without axioms. The ledger model is tied to the code by running generated valid call sequences with malloc/calloc/realloc/free "
+              "wrapped at link time: the library-owned block count after every operation must equal the model's, the final ledger must be empty. The "
+              "access-safety half (out-of-bounds, use-after-free, double free, reads outside the caller's array) is decided by AddressSanitizer on the "
+              "same sequences plus stress shapes (tiny, block-misaligned, everything-unpredictable, sampling distance 1): that half is exploration."),
+        note=TB_COMMON + "Memory safety of C code is not derived by proof here: no C semantics is available in this toolbox (VST/CompCert absent); the ASan replay is labelled exploration. zlib/zstd internal allocations are outside the ledger.",
+        technique="Coq proof (ledger invariant and balance by induction over call histories) + link-time allocation ledger compared with the model + AddressSanitizer replay of generated valid call sequences"),
     "C04": dict(
         category="proof", design_ref="DESIGN.md §4 C04",
         text=("Proved: every byte of the parameter block (shared by all stream kinds) is assigned for every bound mode the writer handles, and its "
